@@ -204,6 +204,15 @@ Definition face_of_rface (r : rface) : face :=
           + (if r_blink r then FA_BLINK else 0) + (if r_reverse r then FA_REVERSE else 0)
           + (if r_strike r then FA_STRIKE else 0)).
 
+(* DA1 carries a SET of attributes (the event holds a BTreeSet): the attributes in increasing
+   order without repetition, whatever order the terminal sent them in (VT220: class first) *)
+Fixpoint sd_insert (x : N) (l : list N) : list N :=
+  match l with
+  | [] => [x]
+  | y :: r => if x <? y then x :: l else if x =? y then l else y :: sd_insert x r
+  end.
+Definition sort_dedup (l : list N) : list N := fold_right sd_insert [] l.
+
 (* `tab`: the library's naming table for literal sequences *)
 Definition denote (tab : list (list N * (kname * N))) (r : report) : tev :=
   match r with
@@ -220,7 +229,7 @@ Definition denote (tab : list (list N * (kname * N))) (r : report) : tev :=
   | RCursor row col => ECursor row col
   | RSize ch cw ph pw => ESize ch cw ph pw
   | RDecMode mode status => EDecMode mode status
-  | RDevAttrs attrs => EDevAttrs attrs
+  | RDevAttrs attrs => EDevAttrs (sort_dedup attrs)
   | RKittyImage id placement error => EKittyImage id placement error
   | RColor name c _ _ _ => EColor name c
   | RTermcapOk caps _ => ETermcap (map (fun kv => (fst kv, Some (snd kv))) caps)
@@ -293,7 +302,7 @@ Section Wf.
     | RDecMode mode status => existsb (N.eqb mode) decmode_all && (status <? 5)
     | RDevAttrs attrs =>
         negb (match attrs with [] => true | _ => false end)
-        && forallb (fun a => (0 <? a) && num_ok a) attrs && strictly_increasing attrs
+        && forallb (fun a => (0 <? a) && num_ok a) attrs
     | RKittyImage id placement error =>
         num_ok id && match placement with Some p => num_ok p | None => true end
         && match error with
